@@ -185,7 +185,61 @@ def random_network(rng, quick=True, force=None):
             thr = _r(rng, 5, 40, 2)
             add(j["name"], rng.choice(["pressure", "pressure", "head"]), rng.choice(["le", "lt", "ge", "gt"]),
                 thr + (j["elev"] if False else 0.0), link, rng.choice(["OPEN", "CLOSED"]), prio)
+    # user TIME controls with non-default priorities: a link toggled at successive instants (on the hydraulic grid ->
+    # backtrack 0, or inside a step), so that in the step where a tank limit / level threshold is crossed another presolve
+    # control of a different priority regularly changes something too
+    if force.get("time_controls", rng.random() < 0.6):
+        for _ in range(rng.choice([1, 1, 2])):
+            tank_links = [l for l in links if l.startswith("L")]
+            link = rng.choice(["PU0"] + [p["name"] for p in spec["pipes"] if p["name"].startswith("PJ")] + tank_links)
+            prio = rng.choice([0, 1, 1, 2, 2, 3, 4, 5, 6])
+            every = rng.choice([1, 1, 2, 3])
+            off = rng.choice([0, 0, 0, rng.randint(1, hyd - 1)])
+            val = rng.choice(["OPEN", "CLOSED"])
+            for k in range(1, nsteps + 1, every):
+                val = "CLOSED" if val == "OPEN" else "OPEN"
+                spec["controls"].append({"name": "c%d" % cid, "kind": "time", "time": k * hyd - off, "link": link, "value": val, "prio": prio})
+                cid += 1
     return spec
+
+
+def cond_controls(spec):
+    """the conditional simple controls (IF node/tank condition THEN link action) of a spec"""
+    return [c for c in spec["controls"] if c.get("kind", "cond") == "cond"]
+
+
+def priority_presolve_spec(prio, scenario):
+    """designed family: a presolve control of priority `prio` changes something in the very hydraulic step in which a tank
+    limit (scenario 'min' / 'max') or a user level threshold ('threshold') is crossed; 'two-levels': two level controls of
+    different priorities cross in one step, the one crossed LATER has the lower priority number `prio`.
+    The presolve list must be served in time order (largest backtrack first) whatever the priorities are."""
+    s = _base(3600, 3)
+    if scenario == "min":
+        s["junctions"] += [{"name": "J", "elev": 10.0, "demand": 0.03, "pattern": None}, {"name": "J2", "elev": 10.0, "demand": 0.0, "pattern": None}]
+        s["tanks"].append({"name": "T", "elev": 50.0, "init": 2.0, "min": 1.0, "max": 5.0, "diam": 10.0, "curve": None})
+        s["pipes"].append({"name": "P", "start": "T", "end": "J", "length": 100.0, "diam": 0.4, "rough": 120.0, "cv": False, "status": "OPEN"})
+        s["pipes"].append({"name": "P2", "start": "J", "end": "J2", "length": 100.0, "diam": 0.3, "rough": 120.0, "cv": False, "status": "OPEN"})
+        s["controls"].append({"name": "t0", "kind": "time", "time": 3600, "link": "P2", "value": "CLOSED", "prio": prio})
+        return s
+    s["reservoirs"].append({"name": "R", "head": 40.0})
+    s["junctions"] += [{"name": "J0", "elev": 0.0, "demand": 0.0, "pattern": None}, {"name": "J2", "elev": 0.0, "demand": 0.0, "pattern": None}]
+    s["tanks"].append({"name": "T0", "elev": 20.0, "init": 1.0, "min": 0.0, "max": 4.0 if scenario == "max" else 9.0, "diam": 12.0, "curve": None})
+    s["pipes"] += [{"name": "PA", "start": "R", "end": "J0", "length": 100.0, "diam": 0.3, "rough": 100.0, "cv": False, "status": "OPEN"},
+                   {"name": "PT", "start": "J0", "end": "T0", "length": 100.0, "diam": 0.2, "rough": 100.0, "cv": False, "status": "OPEN"},
+                   {"name": "PX", "start": "R", "end": "J0", "length": 500.0, "diam": 0.1, "rough": 100.0, "cv": False, "status": "OPEN"},
+                   {"name": "PY", "start": "R", "end": "J0", "length": 500.0, "diam": 0.1, "rough": 100.0, "cv": False, "status": "OPEN"},
+                   {"name": "P2", "start": "J0", "end": "J2", "length": 100.0, "diam": 0.3, "rough": 100.0, "cv": False, "status": "OPEN"}]
+    if scenario == "max":
+        s["controls"].append({"name": "t0", "kind": "time", "time": 3600, "link": "P2", "value": "CLOSED", "prio": prio})
+    elif scenario == "threshold":
+        s["controls"].append({"name": "c0", "src": "T0", "attr": "level", "rel": "ge", "thr": 2.0, "link": "PX", "value": "CLOSED", "prio": 3})
+        s["controls"].append({"name": "t0", "kind": "time", "time": 3600, "link": "P2", "value": "CLOSED", "prio": prio})
+    elif scenario == "two-levels":
+        s["controls"].append({"name": "c0", "src": "T0", "attr": "level", "rel": "ge", "thr": 1.5, "link": "PX", "value": "CLOSED", "prio": 5})
+        s["controls"].append({"name": "c1", "src": "T0", "attr": "level", "rel": "ge", "thr": 2.5, "link": "PY", "value": "CLOSED", "prio": prio})
+    else:
+        raise ValueError(scenario)
+    return s
 
 
 def two_threshold_spec(curve=False, same_tank=True):
@@ -324,9 +378,15 @@ def build_wn(wntr, spec, report="ALL"):
         wn.add_valve(v["name"], v["start"], v["end"], diameter=v["diam"], valve_type=v["type"], minor_loss=v.get("minor_loss", 0.0),
                      initial_setting=v["setting"])
     for c in spec["controls"]:
-        src = wn.get_node(c["src"])
         link = wn.get_link(c["link"])
         act = ControlAction(link, "status", LinkStatus.Open if c["value"] == "OPEN" else LinkStatus.Closed)
+        if c.get("kind", "cond") == "time":
+            from wntr.network.controls import SimTimeCondition
+
+            cond = SimTimeCondition(wn, "=", int(c["time"]))
+            wn.add_control(c["name"], Control(cond, act, priority=ControlPriority(c["prio"])))
+            continue
+        src = wn.get_node(c["src"])
         cond = ValueCondition(src, c["attr"], REL_NAMES[c["rel"]], c["thr"])
         wn.add_control(c["name"], Control(cond, act, priority=ControlPriority(c["prio"])))
     return wn
